@@ -24,28 +24,41 @@ Print Assumptions C12_noninterference.
 
 (* the key directory.  [predir]: the directory already existed, mode 0o755 and not chown'ed, when the agent
    first started; [co]: the environment lets chown(key dir, root, root) succeed (it does not for an agent
-   without CAP_CHOWN on somebody else's directory; acl_directory then logs and still sets the mode). *)
+   without CAP_CHOWN on somebody else's directory; acl_directory then logs and still sets the mode).
+   Histories may also REMOVE the key directory while the agent runs ([RemoveKeyDir]). *)
 
-(* in EVERY environment the mode is 0o700 at every creation of a file inside the key directory (mkdir resets
-   it; restarts redo the chmod; nothing else touches it) *)
+(* F12 (known finding): the statement is refuted when the directory is removed and the provision deadline
+   re-creates it before the next start: write_provision_state's try_create_folder makes it 0o755, nothing
+   restricts it, and the next key is stored there *)
+Theorem C12_keydir_recreated_refuted :
+  exists h : history, KnownClass_keydir_recreated_unrestricted h = true
+    /\ creates_restricted true (init_dir false) (sys_trace current false true h) = false.
+Proof. exact keydir_recreated_refuted. Qed.
+Print Assumptions C12_keydir_recreated_refuted.
+
+(* outside that class, in EVERY environment: the mode is 0o700 at every creation of a key file inside the key
+   directory (mkdir resets it; restarts redo the chmod; a removed directory gets no key file until the restart) *)
 Theorem C12_dir_mode_restricted_at_create :
-  forall (v : variant) (predir co : bool) (h : history) (pre : list sys) (c : fileclass) (post : list sys),
-  sys_trace v predir co h = pre ++ Create c :: post -> mode_restricted (dir_after predir pre) = true.
+  forall (v : variant) (predir co : bool) (h : history) (pre post : list sys),
+  KnownClass_keydir_recreated_unrestricted h = false ->
+  sys_trace v predir co h = pre ++ Create FKeyFile :: post -> mode_restricted (dir_after predir pre) = true.
 Proof. exact dir_mode_restricted_at_create. Qed.
 Print Assumptions C12_dir_mode_restricted_at_create.
 
 (* where chown can succeed the directory is root:root AND 0o700 at every such creation *)
 Theorem C12_dir_restricted_at_create :
-  forall (v : variant) (predir : bool) (h : history) (pre : list sys) (c : fileclass) (post : list sys),
-  sys_trace v predir true h = pre ++ Create c :: post -> restricted (dir_after predir pre) = true.
+  forall (v : variant) (predir : bool) (h : history) (pre post : list sys),
+  KnownClass_keydir_recreated_unrestricted h = false ->
+  sys_trace v predir true h = pre ++ Create FKeyFile :: post -> restricted (dir_after predir pre) = true.
 Proof. exact dir_restricted_at_create. Qed.
 Print Assumptions C12_dir_restricted_at_create.
 
-(* DESIGN form: the chmod 0o700 (= 448) precedes the first creation in the key directory, in every
+(* DESIGN form: the chmod 0o700 (= 448) precedes every creation of a key file in the key directory, in every
    environment; so does the chown root:root wherever it can succeed *)
 Theorem C12_dir_restricted_first :
-  forall (v : variant) (predir co : bool) (h : history) (pre : list sys) (c : fileclass) (post : list sys),
-  sys_trace v predir co h = pre ++ Create c :: post ->
+  forall (v : variant) (predir co : bool) (h : history) (pre post : list sys),
+  KnownClass_keydir_recreated_unrestricted h = false ->
+  sys_trace v predir co h = pre ++ Create FKeyFile :: post ->
   In (Chmod 448) pre /\ (co = true -> In (Chown 0 0) pre).
 Proof. exact dir_restricted_first. Qed.
 Print Assumptions C12_dir_restricted_first.
